@@ -1,5 +1,6 @@
 import VerifModel.Driver.Cmp
 import VerifModel.Driver.Cont
+import VerifModel.Driver.Det
 /-
   verifdrv — line-protocol driver: one operation per input line, one canonical
   reply line.  `ERR bad-op` for anything a handler does not recognise.
@@ -7,7 +8,7 @@ import VerifModel.Driver.Cont
 open VerifModel
 
 def handlers : List (List String → Option String) :=
-  [Driver.Cmp.handle, Driver.Cont.handle]
+  [Driver.Cmp.handle, Driver.Cont.handle, Driver.Det.handle]
 
 def step (line : String) : String :=
   let args := (line.trimAscii.toString.splitOn " ").filter (· ≠ "")
